@@ -60,8 +60,11 @@ def w_yxt(w, cfg):
     if (c0, c1) != (0, T) or cfg.get("explicit"):
         kwargs = {"cal_start": c0, "cal_stop": c1}
     it.A.shadow = True            # float64 shadows on the concrete counts / shares (DESIGN 4.2 "float shadows")
+    it.narrow = {}                # single-precision tags: float ufuncs on 8/16-bit integer or float32 arrays, sums of float32 arrays
     res = it.call_function(st, fn, [cube, nd], kwargs)
     kernel_obs = [ob for ob in it.obligations if ob.kind == "float-divergence"]
+    narrow_obs = [ob for ob in it.obligations if ob.kind == "narrow-arithmetic"]
+    it.narrow = None
     it.A.shadow = False
     if not hasattr(res, "positions") or res.shape != (1, npx, T):
         raise Unsupported("gammastd_yxt result shape")
@@ -76,6 +79,10 @@ def w_yxt(w, cfg):
         pix = [[C.model_value(m, c) for c in px.cells(nd)]] + ([[C.model_value(m, c) for c in py.cells(nd)]] if two else [])
         return {"entry": "yxt", "pixels": pix, "nodata": C.model_value(m, nd), "window": [c0, c1]}
     w.discharge("gammastd_yxt.dtype_int16", [], z3.BoolVal(res.dtype == "int16"), concretize=conc)
+    for k, ob in enumerate(narrow_obs[:4]):
+        # an operation Numba carries out in single precision on the way to the fit (the statement asks for the exact rounded value)
+        w.discharge(f"gammastd_yxt.single_precision_arithmetic[{k}]@{ob.where}", assume, ob.claim, guard=ob.guard,
+                    concretize=lambda m: dict(conc(m), precision=True))
     for k, ob in enumerate(kernel_obs):
         # a threshold comparison on a concrete share that float64 decides differently from the exact value
         w.discharge(f"gammastd_yxt.float_divergence[{k}]@{ob.where}", assume, ob.claim, guard=ob.guard, concretize=conc)
